@@ -73,6 +73,22 @@ CLAIMED = {
               "(components of top pairs for product domains), written points == chosen candidates, active slots untouched, "
               "active multiset preserved across reshuffles.", "4/C17",
               note="candidates are exposed by the guarded hook JINNS_VERIF=1 and re-validated by the harness."),
+    "C07": _c("Hypothesis-generated training programs; differential against an eager textbook reference loop",
+              "The whole 9-tuple of jinns.solve (loss / term / tracked histories, final parameters, optimizer state, returned "
+              "generator state exactly, iteration count) vs the eager loop of the statement, over loss kinds, optimizers "
+              "(incl. chained / scheduled), batch sizes that do and do not divide the stores, auxiliary generators, "
+              "tracked-parameter specifications; resumed runs solve(n1);solve(n2) == loop(n1+n2) == solve(n1+n2).", "4/C07",
+              note="jitted vs eager compared with rtol 1e-7 in x64."),
+    "C18": _c("exhaustive fault enumeration (every iteration index x origin) with a harness-owned deterministic injector; differential against the reference loop",
+              "Every fault position k in 0..n-1 for each origin (optimizer update / gradient of an nn leaf or of an equation "
+              "parameter, loss value) is injected through an optax transformation with a step counter; returned parameters, "
+              "NaN-freeness, histories up to k and untouched later entries vs the reference loop with the same injection.",
+              "4/C18", category="fault_enumeration"),
+    "C19": _c("exhaustive enumeration of validation scripts through one compiled solve + Hypothesis-generated ValidationLoss histories against a python model",
+              "All (stop, improved) scripts of length <=3 (quick) / <=4 (thorough) for call_every 1..3: invocation schedule, "
+              "post-update parameters (fingerprint criterion), carried-forward criterion, stop right after the first request, "
+              "best parameters; ValidationLoss improvement / patience / early-stopping model on harness-chosen loss "
+              "sequences with its own generators, directly and through solve.", "4/C19"),
     "C12": _c("Hypothesis-generated parameter batches / heterogeneity maps against a per-sample numpy loop",
               "Every term of single losses with any non-empty subset of batched keys vs per-sample reference; caller's "
               "parameters unchanged; heterogeneous keys replaced inside the dynamic term only; gradient w.r.t. an "
